@@ -387,9 +387,11 @@ def build_cm3(spec):
     if not no_patterns:
         out += bytes(rng.getrandbits(8) for _ in range(243))
     stats = {"raw_lines": 0, "coded_lines": 0, "copy_left": 0, "copy_left_col0": 0, "copy_up": 0, "literal": 0,
-             "copy_up_across_page": 0, "padded_literal_bits": 0}
+             "copy_up_across_page": 0, "padded_literal_bits": 0, "second_mask_empty": 0}
     linbuf = [0] * 160
     p_raw = spec.get("p_raw", 0.2)
+    p_copy = spec.get("p_copy", 0.85)  # how eagerly the encoder copies instead of storing a literal
+    prefer = spec.get("prefer")  # "left" / "up": which copy it takes when both are possible
     for page in range(pages):
         out.append(192)
         for ln in range(192):
@@ -411,8 +413,8 @@ def build_cm3(spec):
                 if linbuf[x] == t:
                     options.append("up")
                 r = rng.random()
-                if len(options) > 1 and r < 0.85:
-                    ch = rng.choice(options[1:])
+                if len(options) > 1 and r < p_copy:
+                    ch = prefer if prefer in options else rng.choice(options[1:])
                 else:
                     ch = "lit"
                 if ch == "left":
@@ -434,6 +436,8 @@ def build_cm3(spec):
                 linbuf[x] = t
             need = (len(litbits) + 7) // 8
             contr = need
+            if need == 0:
+                stats["second_mask_empty"] += 1  # a line that only copies from the left: the control byte is 0, the second mask has no bytes
             if rng.random() < 0.2:
                 contr = min(127, need + rng.randrange(4))
                 if contr > need:
